@@ -6,3 +6,7 @@ import ParsleyVerif.Props.C11P
 #print axioms PV.TxtTie.c11p_newFileSet
 #print axioms PV.TxtTie.c11p_example_rel
 #print axioms PV.TxtTie.c11p_example
+#print axioms PV.TxtTie.c11p_newFile
+#print axioms PV.TxtTie.c11p_replace_is_normCRLF
+#print axioms PV.TxtTie.c11p_newFile_filesRel
+#print axioms PV.TxtTie.c11p_newFile_example
